@@ -63,5 +63,23 @@ theorem endblock_steps_as_modelled : Generated.endBlockSteps =
     ["CompleteRedelegations", "CompleteUnbondings", "GetAllAssets", "InitializeAllianceAssets", "DeductAssetsHook",
      "RewardWeightChangeHook", "RebalanceHook"] := by decide
 
+/-! ## the complete list of failure modes -/
+
+/-- for EVERY state: when the end blocker fails, its error is one of `endModes` (listed below); nothing else can go wrong
+    (proof: AllianceProofs/FailModesEB) -/
+theorem end_block_failure_modes (w : World) (e : Err) (h : (step .endBlock w).1 = .error e) : e ∈ endModes :=
+  endBlocker_errs.run w e h
+
+/-- with valid module parameters (INV-P: every reachable state, every parameter set the governance handler accepts) the
+    integer division by zero of the take-rate step (D9) and the parameter validation error are excluded -/
+theorem end_block_failure_modes_under_accepted_params (w : World) (hp : ParamsOK w) (e : Err)
+    (h : (step .endBlock w).1 = .error e) : e ∈ endModesOK := end_block_failure_modes_with_valid_params w hp e h
+
+example : endModesOK = [.err "no_validator", .err "unknown_asset", .err "no_delegation", .err "insufficient_funds",
+    .err "oracle_exhausted", .err "oracle_mismatch", .panic "neg_dec_coin", .panic "neg_coin", .panic "div_zero",
+    .panic "overflow", .err "weight_out_of_bound", .err "invalid_ex_rate", .panic "power_overflow",
+    .err "insufficient_shares", .err "invalid_shares", .err "not_enough_shares", .panic "staking_negative_tokens"] := rfl
+example : endModes = .err "invalid_duration" :: .panic "int_div_zero" :: endModesOK := rfl
+
 end C17
 end Alliance
